@@ -4,7 +4,7 @@ Only statements of the property (and non-vacuity examples) live here; helper lem
 Lemmas / Accept / Ops / Laws.  The state machine is `BV.C10.step` (Model.lean): one public mempool
 call or one block connect / disconnect notification handled by netsync.
 -/
-import BV.C10.Final
+import BV.C10.Minable
 import BV.Generated.C10
 namespace BV.C10
 open Spec Lemmas
@@ -113,9 +113,40 @@ theorem pool_acyclic (W : TxAbs → Prop) (U : Universe W) (pol : Policy) (matur
     PoolRanked (run pol (State.init maturity mtp0) ops).1.pool :=
   (run_goodSt U pol ops _ (goodSt_init W maturity mtp0) h).good.ranked U
 
-/-- the hypotheses are satisfiable: a universe, and a history in it -/
-example : Universe (fun t : TxAbs => t.ins = [] ∧ t = { t with id := 0 } ∧ False) :=
-  ⟨fun _ h => absurd h.2.2 (fun h => h), fun _ _ h => absurd h.2.2 (fun h => h)⟩
+/-- the hypotheses are satisfiable: a universe of two transactions (a parent and its child) and a history
+over it that submits the child first (orphan), then the parent, connects a block and disconnects it -/
+def exA : TxAbs where
+  id := 5
+  ins := [⟨1, 0⟩]
+  seqs := [0xffffffff]
+  nOuts := 2
+  lockTime := 0
+  fee := 1000
+  vsize := 100
+  ssize := 100
+  size := 100
+  sane := true
+  coinbase := false
+  valuesOk := true
+  std := true
+  seqLockOk := true
+  sigOk := true
+  highPrio := false
+  scriptsOk := true
+def exB : TxAbs := { exA with id := 6, ins := [⟨5, 1⟩] }
+def exCb (id : Nat) : TxAbs := { exA with id := id, ins := [], seqs := [], coinbase := true }
+def exW (t : TxAbs) : Prop := t = exA ∨ t = exB ∨ t = exCb 1 ∨ t = exCb 7
+
+example : Universe exW := by
+  refine ⟨?_, ?_⟩
+  · rintro t (rfl | rfl | rfl | rfl) x hx <;> simp [exA, exB, exCb] at hx <;> subst hx <;> decide
+  · rintro a b (rfl | rfl | rfl | rfl) (rfl | rfl | rfl | rfl) h <;> first | rfl | (exact absurd h (by decide))
+
+example (pol : Policy) : RunOk exW pol (State.init 1 0)
+    [.connect ⟨exCb 1, [], 10⟩ [], .process exB true false 0 0 [], .process exA true false 0 0 [],
+     .connect ⟨exCb 7, [exA], 20⟩ [], .disconnect] :=
+  ⟨⟨Or.inr (Or.inr (Or.inl rfl)), fun _ h => by cases h⟩, Or.inr (Or.inl rfl), Or.inl rfl,
+   ⟨Or.inr (Or.inr (Or.inr rfl)), fun T h => by simp at h; subst h; exact Or.inl rfl⟩, trivial, trivial⟩
 
 /-- removing a transaction together with its redeemers removes a set closed under pooled redeemers:
 nothing that stays in the pool spends an output of anything that was removed -/
@@ -132,6 +163,42 @@ theorem replacement_evicts_descendants (W : TxAbs → Prop) (U : Universe W) (c 
     ∀ m ∈ s.txs, (∃ e ∈ txConflicts s t, e.id = m.id) → ∀ u ∈ s.txs, (∃ x ∈ u.ins, OutputOf x m) →
       ∃ e ∈ txConflicts s t, e.id = u.id :=
   txConflicts_closed g.ok (g.ranked U) t
+
+/-! ### OrphanBounds -/
+
+/-- inductive step: orphan storage stays within `MaxOrphanTxs` entries of at most `MaxOrphanTxSize` bytes -/
+theorem orphanBounds_step (pol : Policy) (st : State) (op : Op) (h : OrphanBounds pol st.pool) :
+    OrphanBounds pol (step pol st op).1.pool := step_bounds pol st op h
+
+theorem orphanBounds_always (pol : Policy) (maturity mtp0 : Nat) (ops : List Op) :
+    OrphanBounds pol (run pol (State.init maturity mtp0) ops).1.pool :=
+  run_bounds pol ops _ (bounds_init pol maturity mtp0)
+
+/-! ### Minable -/
+
+/-- admission establishes, against the chain view of that moment, everything a block requires of the
+transaction by itself: no duplicate inputs, sanity, value rules, scripts, sequence locks, finality for
+the next block (also for AcceptNonStd pools: fix of F-C10-b), coinbase maturity -/
+theorem admission_conditions (pol : Policy) (c : Chain) (s : Pool) (t : TxAbs) (isNew rl rdo : Bool)
+    (cs : List TxAbs) (h : checkAccept pol c s t isNew rl rdo = .ok cs) : Local c t :=
+  local_of_accept h
+
+/-- finality established at admission persists while height and median time do not move backwards -/
+theorem finality_monotone (t : TxAbs) (h h' m m' : Nat) (hh : h ≤ h') (hm : m ≤ m')
+    (hf : isFinal t h m = true) : isFinal t h' m' = true := isFinal_mono hh hm hf
+
+/-- Minable, partial: with the invariants proved above (NoDoubleSpend, acyclicity by ranks,
+InputsAvailable) the pooled set listed in ascending id order is a valid block body on the chain view,
+PROVIDED every pooled transaction satisfies its admission conditions against the current view.
+Missing for the full clause: that `Local` persists for every pooled transaction across all
+operations while height/MTP do not move backwards (proved here only for finality,
+`finality_monotone`); that part is covered by the `CheckConnectBlockTemplate` observation of the
+correspondence run, not by a theorem. -/
+theorem minable_partial (c : Chain) (s : Pool) (l : List TxAbs)
+    (nds : NoDoubleSpend s) (rk : PoolRanked s) (av : InputsAvailable c s)
+    (loc : ∀ t ∈ s.txs, Local c t)
+    (hl : ∀ t, t ∈ s.txs ↔ t ∈ l) (hs : l.Pairwise (fun a b => a.id < b.id)) : ValidSeq c [] l :=
+  validSeq_sorted nds rk av loc l [] (fun t => by rw [hl t]; simp) hs (fun a h => by cases h)
 
 /-! ### constants pinned to the tree -/
 
